@@ -6,6 +6,7 @@ import (
 	"strings"
 
 	"github.com/modernizing/coca/pkg/application/analysis/javaapp"
+	"github.com/modernizing/coca/pkg/application/api"
 	"github.com/modernizing/coca/pkg/domain/core_domain"
 )
 
@@ -42,5 +43,25 @@ func init() {
 		fullApp := javaapp.NewJavaFullApp()
 		full := fullApp.AnalysisPath(dir, idents)
 		return L(sxOfModel(relativise(idents, dir)), sxOfModel(relativise(full, dir)))
+	})
+}
+
+func init() {
+	// ((relpath text) ...) -> API entries of `coca api` (identifier pass, full pass, then the API scan)
+	register("java.api", func(in Sx) Sx {
+		dir := writeTree(in)
+		defer os.RemoveAll(dir)
+		identApp := javaapp.NewJavaIdentifierApp()
+		idents := identApp.AnalysisPath(dir)
+		identMap := core_domain.BuildIdentifierMap(idents)
+		diMap := core_domain.BuildDIMap(idents, identMap)
+		fullApp := javaapp.NewJavaFullApp()
+		deps := fullApp.AnalysisPath(dir, idents)
+		app := new(api.JavaApiApp)
+		out := []Sx{}
+		for _, r := range app.AnalysisPath(dir, deps, identMap, diMap) {
+			out = append(out, L(A(r.HttpMethod), A(r.Uri), A(r.PackageName), A(r.ClassName), A(r.MethodName), A(r.RequestBodyClass)))
+		}
+		return L(out...)
 	})
 }
